@@ -241,8 +241,11 @@ package dnsmsg
 
 // The remaining record constructors: an object of the caller's own (new or
 // taken out of a pool), set from the arguments.
+// (appendIfNotNil is instantiated for questions, strings, bytes and SVCB keys
+// only - never for records or options - so it leaves those arrays alone.)
 //@ func appendIfNotNil
 //@   modifies heap
+//@   preserves dns.Msg.*, dns.OPT.*, Cloner.*, optCloner.*, allelems(dns.RR), allelems(dns.EDNS0)
 //@   ensures len(res) == len(original) && (original == nil ==> res == nil)
 //@ func newANetIP
 //@   modifies heap, pooled
@@ -272,8 +275,6 @@ package dnsmsg
 //@   modifies heap, pooled
 //@   preserves dns.Msg.*, Cloner.*, optCloner.*, allelems(dns.RR)
 //@   ensures clone != nil && clone != rr && !pooled[clone] && (fresh(clone) || old(pooled[clone])) && (forall x int :: !old(pooled[x]) ==> !pooled[x])
-//@ func (*httpsCloner).put
-//@   modifies pooled
 //@ interface ClonerStat method OnClone
 //@   modifies nothing
 
@@ -288,30 +289,6 @@ package dnsmsg
 //@   ensures nothing-live-gets-pooled: forall x int :: !old(pooled[x]) ==> !pooled[x]
 //@   ensures PW()
 
-// The records of a message in use: present and not in any pool.
-//@ pred liveRRs(s []dns.RR) = forall i int :: 0 <= i && i < len(s) ==> ref(s[i]) != 0 && !pooled[ref(s[i])]
-
-// Every record appended to the clone's section is the clone's own: taken out
-// of a pool or new, hence shared with no message in use - in particular not
-// with the source.
-//@ func (*Cloner).appendAnswer
-//@   property C07
-//@   let c0 = clones
-//@   requires CL(c) && PW() && liveRRs(original) && arr(clones) != arr(original)
-//@   modifies heap, pooled
-//@   preserves dns.Msg.*, Cloner.*, optCloner.*
-//@   ensures original == nil ==> res == nil
-//@   ensures same-number-of-records: original != nil ==> len(res) == len(c0) + len(original)
-//@   ensures each-record-is-the-clones-own: forall i int :: len(c0) <= i && i < len(res) ==>
-//@             ref(res[i]) != 0 && !pooled[ref(res[i])] && (fresh(ref(res[i])) || old(pooled)[ref(res[i])])
-//@   ensures nothing-live-gets-pooled: forall x int :: !old(pooled[x]) ==> !pooled[x]
-//@   ensures PW()
-//@   loop 1 invariant -1 <= #i && #i < len(original) && arr(clones) != arr(original) && len(clones) == len(c0) + #i + 1 && PW()
-//@   loop 1 invariant liveRRs(original)
-//@   loop 1 invariant forall x int :: !old(pooled[x]) ==> !pooled[x]
-//@   loop 1 invariant forall i int :: len(c0) <= i && i < len(clones) ==>
-//@             ref(clones[i]) != 0 && !pooled[ref(clones[i])] && (fresh(ref(clones[i])) || old(pooled)[ref(clones[i])])
-
 // Only an array that is all of the memory the address can reach goes into the
 // address pool: a 16-byte window into a longer buffer (the hints of a message
 // unpacked from the wire are such windows) would overlap with its neighbours'
@@ -322,3 +299,225 @@ package dnsmsg
 //@   modifies pooled
 //@   atcall Put assert a-pooled-array-is-the-whole-buffer-of-its-address: cap(ip) == 16
 //@   loop 1 invariant -1 <= #i && #i < len(ips)
+
+// The records of a message in use: present and not in any pool.
+//@ pred liveRRs(s []dns.RR) = forall i int :: 0 <= i && i < len(s) ==> ref(s[i]) != 0 && !pooled[ref(s[i])]
+
+// Memory of record slices: the window of its array a slice can reach.  Two
+// slices are disjoint when neither can reach into the other's window (the
+// sections of a message copied by the DNS library are three disjoint windows
+// of one array).
+//@ pred inWin(s []dns.RR, a int, j int) = a == arr(s) && off(s) <= j && j < off(s) + cap(s)
+//@ pred sameWin(s []dns.RR, t []dns.RR) = arr(s) == arr(t) && off(s) == off(t) && cap(s) == cap(t)
+//@ pred disj(s []dns.RR, t []dns.RR) = cap(s) == 0 || cap(t) == 0 || arr(s) != arr(t) || off(s) + cap(s) <= off(t) || off(t) + cap(t) <= off(s)
+
+// Every record appended to the clone's section is the clone's own: taken out
+// of a pool or new, hence shared with no message in use - in particular not
+// with the source.  Only the memory of the section it was given (or new
+// memory) is written.
+//@ func (*Cloner).appendAnswer
+//@   property C07
+//@   let c0 = clones
+//@   requires CL(c) && PW() && liveRRs(original) && disj(clones, original)
+//@   modifies heap, pooled
+//@   preserves dns.Msg.*, Cloner.*, optCloner.*
+//@   ensures original == nil ==> res == nil
+//@   ensures same-number-of-records: original != nil ==> len(res) == len(c0) + len(original)
+//@   ensures each-record-is-the-clones-own: forall i int :: len(c0) <= i && i < len(res) ==>
+//@             ref(res[i]) != 0 && !pooled[ref(res[i])] && (fresh(ref(res[i])) || old(pooled)[ref(res[i])])
+//@   ensures nothing-live-gets-pooled: forall x int :: !old(pooled[x]) ==> !pooled[x]
+//@   ensures writes-only-to-the-memory-it-was-given: forall a int, j int :: !fresh(a) && !inWin(c0, a, j) ==> elemat(dns.RR, a, j) == old(elemat(dns.RR, a, j))
+//@   ensures stays-in-its-memory-or-moves-to-new: original != nil ==> sameWin(res, c0) || fresh(arr(res))
+//@   ensures PW()
+//@   loop 1 invariant -1 <= #i && #i < len(original) && disj(clones, original) && len(clones) == len(c0) + #i + 1 && PW() && (sameWin(clones, c0) || fresh(arr(clones)))
+//@   loop 1 invariant liveRRs(original)
+//@   loop 1 invariant forall x int :: !old(pooled[x]) ==> !pooled[x]
+//@   loop 1 invariant forall a int, j int :: !fresh(a) && !inWin(c0, a, j) ==> elemat(dns.RR, a, j) == old(elemat(dns.RR, a, j))
+//@   loop 1 invariant forall i int :: len(c0) <= i && i < len(clones) ==>
+//@             ref(clones[i]) != 0 && !pooled[ref(clones[i])] && (fresh(ref(clones[i])) || old(pooled)[ref(clones[i])])
+
+//@ func (*Cloner).appendNS
+//@   property C07
+//@   let c0 = clones
+//@   requires CL(c) && PW() && liveRRs(original) && disj(clones, original)
+//@   modifies heap, pooled
+//@   preserves dns.Msg.*, Cloner.*, optCloner.*
+//@   ensures original == nil ==> res == nil
+//@   ensures same-number-of-records: original != nil ==> len(res) == len(c0) + len(original)
+//@   ensures each-record-is-the-clones-own: forall i int :: len(c0) <= i && i < len(res) ==>
+//@             ref(res[i]) != 0 && !pooled[ref(res[i])] && (fresh(ref(res[i])) || old(pooled)[ref(res[i])])
+//@   ensures nothing-live-gets-pooled: forall x int :: !old(pooled[x]) ==> !pooled[x]
+//@   ensures writes-only-to-the-memory-it-was-given: forall a int, j int :: !fresh(a) && !inWin(c0, a, j) ==> elemat(dns.RR, a, j) == old(elemat(dns.RR, a, j))
+//@   ensures stays-in-its-memory-or-moves-to-new: original != nil ==> sameWin(res, c0) || fresh(arr(res))
+//@   ensures PW()
+//@   loop 1 invariant -1 <= #i && #i < len(original) && disj(clones, original) && len(clones) == len(c0) + #i + 1 && PW() && (sameWin(clones, c0) || fresh(arr(clones)))
+//@   loop 1 invariant liveRRs(original)
+//@   loop 1 invariant forall x int :: !old(pooled[x]) ==> !pooled[x]
+//@   loop 1 invariant forall a int, j int :: !fresh(a) && !inWin(c0, a, j) ==> elemat(dns.RR, a, j) == old(elemat(dns.RR, a, j))
+//@   loop 1 invariant forall i int :: len(c0) <= i && i < len(clones) ==>
+//@             ref(clones[i]) != 0 && !pooled[ref(clones[i])] && (fresh(ref(clones[i])) || old(pooled)[ref(clones[i])])
+
+// An OPT record in use: not pooled, its options present and not pooled, and
+// its option array not the array of any pooled record.
+//@ pred OC(c *optCloner) = c != nil && c.rr != nil && c.cookie != nil && c.ede != nil && c.subnet != nil
+//@ pred optArrSep(rr *dns.OPT) = forall p *dns.OPT :: pooled[p] ==> len(rr.Option) == 0 || arr(p.Option) != arr(rr.Option)
+//@ pred liveOPT(rr *dns.OPT) = !pooled[rr] && optArrSep(rr)
+
+// (A typed-nil option in the source would make clone panic; that is not part
+// of C07, hence no nil obligations here.)
+//@ func (*optCloner).clone
+//@   property C07
+//@   nosafety nil
+//@   requires OC(c) && PW() && (rr != nil ==> !pooled[rr])
+//@   modifies heap, pooled
+//@   preserves dns.Msg.*, Cloner.*, optCloner.*, allelems(dns.RR)
+//@   ensures rr == nil ==> clone == nil
+//@   ensures its-own-record: rr != nil ==> clone != nil && clone != rr && !pooled[clone] && (fresh(clone) || old(pooled)[clone])
+//@   ensures same-number-of-options: rr != nil && full ==> len(clone.Option) == len(rr.Option) && (rr.Option == nil ==> clone.Option == nil)
+//@   ensures each-option-is-the-clones-own: rr != nil && full ==> forall j int :: 0 <= j && j < len(clone.Option) ==>
+//@             ref(clone.Option[j]) != 0 && !pooled[ref(clone.Option[j])] && (fresh(ref(clone.Option[j])) || old(pooled)[ref(clone.Option[j])])
+//@   ensures nothing-live-gets-pooled: forall x int :: !old(pooled[x]) ==> !pooled[x]
+//@   ensures writes-only-to-the-record-it-took: forall o *dns.OPT :: !fresh(o) && (!old(pooled[o]) || pooled[o]) ==> o.Option == old(o.Option) && o.Hdr == old(o.Hdr)
+//@   ensures source-options-untouched: rr != nil && old(optArrSep(rr)) ==> (forall j int :: 0 <= j && j < len(rr.Option) ==> rr.Option[j] == old(rr.Option[j]))
+//@   ensures PW()
+//@   loop 1 invariant -1 <= #i && #i < len(rr.Option) && PW() && clone != nil && clone != rr && !pooled[clone] && (fresh(clone) || old(pooled)[clone])
+//@   loop 1 invariant len(clone.Option) == #i + 1 && (old(optArrSep(rr)) ==> len(rr.Option) == 0 || arr(clone.Option) != arr(rr.Option))
+//@   loop 1 invariant forall o *dns.OPT :: !fresh(o) && (!old(pooled[o]) || pooled[o]) ==> o.Option == old(o.Option) && o.Hdr == old(o.Hdr)
+//@   loop 1 invariant old(optArrSep(rr)) ==> (forall j int :: 0 <= j && j < len(rr.Option) ==> rr.Option[j] == old(rr.Option[j]))
+//@   loop 1 invariant !pooled[rr]
+//@   loop 1 invariant forall x int :: !old(pooled[x]) ==> !pooled[x]
+//@   loop 1 invariant forall j int :: 0 <= j && j < len(clone.Option) ==>
+//@             ref(clone.Option[j]) != 0 && !pooled[ref(clone.Option[j])] && (fresh(ref(clone.Option[j])) || old(pooled)[ref(clone.Option[j])])
+
+//@ func (*Cloner).appendExtra
+//@   property C07
+//@   let c0 = clones
+//@   requires CL(c) && PW() && liveRRs(original) && disj(clones, original)
+//@   modifies heap, pooled
+//@   preserves dns.Msg.*, Cloner.*, optCloner.*
+//@   ensures original == nil ==> res == nil
+//@   ensures same-number-of-records: original != nil ==> len(res) == len(c0) + len(original)
+//@   ensures each-record-is-the-clones-own: forall i int :: len(c0) <= i && i < len(res) ==>
+//@             ref(res[i]) != 0 && !pooled[ref(res[i])] && (fresh(ref(res[i])) || old(pooled)[ref(res[i])])
+//@   ensures nothing-live-gets-pooled: forall x int :: !old(pooled[x]) ==> !pooled[x]
+//@   ensures no-record-in-use-is-written: forall o *dns.OPT :: !fresh(o) && !old(pooled[o]) ==> o.Option == old(o.Option) && o.Hdr == old(o.Hdr)
+//@   ensures writes-only-to-the-memory-it-was-given: forall a int, j int :: !fresh(a) && !inWin(c0, a, j) ==> elemat(dns.RR, a, j) == old(elemat(dns.RR, a, j))
+//@   ensures stays-in-its-memory-or-moves-to-new: original != nil ==> sameWin(res, c0) || fresh(arr(res))
+//@   ensures PW()
+//@   loop 1 invariant -1 <= #i && #i < len(original) && disj(clones, original) && len(clones) == len(c0) + #i + 1 && PW() && (sameWin(clones, c0) || fresh(arr(clones)))
+//@   loop 1 invariant liveRRs(original)
+//@   loop 1 invariant forall x int :: !old(pooled[x]) ==> !pooled[x]
+//@   loop 1 invariant forall o *dns.OPT :: !fresh(o) && !old(pooled[o]) ==> o.Option == old(o.Option) && o.Hdr == old(o.Hdr)
+//@   loop 1 invariant forall a int, j int :: !fresh(a) && !inWin(c0, a, j) ==> elemat(dns.RR, a, j) == old(elemat(dns.RR, a, j))
+//@   loop 1 invariant forall i int :: len(c0) <= i && i < len(clones) ==>
+//@             ref(clones[i]) != 0 && !pooled[ref(clones[i])] && (fresh(ref(clones[i])) || old(pooled)[ref(clones[i])])
+
+// A message in use: not pooled, its records present and not pooled, and no
+// pooled message can reach into the memory of its sections.  A pooled
+// message's own sections do not reach into one another.
+//@ pred secNotOf(a []dns.RR, p *dns.Msg) = disj(a, p.Answer) && disj(a, p.Ns) && disj(a, p.Extra)
+//@ pred secSep(m *dns.Msg) = forall p *dns.Msg :: pooled[p] ==> secNotOf(m.Answer, p) && secNotOf(m.Ns, p) && secNotOf(m.Extra, p)
+//@ pred liveMsg(m *dns.Msg) = !pooled[m] && liveRRs(m.Answer) && liveRRs(m.Ns) && liveRRs(m.Extra) && secSep(m)
+//@ pred poolOwn() = forall p *dns.Msg :: pooled[p] ==> disj(p.Answer, p.Ns) && disj(p.Answer, p.Extra) && disj(p.Ns, p.Extra)
+
+// Clone: the result is a message of the caller's own, with the header and the
+// shape of the source; every record in it is the clone's own (out of a pool or
+// new, so shared with no message in use); nothing in use becomes pooled and no
+// message in use is written.
+//@ func (*Cloner).Clone
+//@   property C07
+//@   requires CL(c) && PW() && poolOwn() && (msg != nil ==> liveMsg(msg))
+//@   modifies heap, pooled
+//@   preserves Cloner.*, optCloner.*
+//@   ensures msg == nil ==> clone == nil
+//@   ensures its-own-message: msg != nil ==> clone != nil && clone != msg && !pooled[clone] && (fresh(clone) || old(pooled)[clone])
+//@   ensures same-header-and-shape: msg != nil ==> clone.MsgHdr == msg.MsgHdr && clone.Compress == msg.Compress &&
+//@             len(clone.Question) == len(msg.Question) && len(clone.Answer) == len(msg.Answer) && len(clone.Ns) == len(msg.Ns) && len(clone.Extra) == len(msg.Extra)
+//@   ensures each-answer-is-the-clones-own: msg != nil ==> forall i int :: 0 <= i && i < len(clone.Answer) ==>
+//@             ref(clone.Answer[i]) != 0 && !pooled[ref(clone.Answer[i])] && (fresh(ref(clone.Answer[i])) || old(pooled)[ref(clone.Answer[i])])
+//@   ensures each-authority-record-is-the-clones-own: msg != nil ==> forall i int :: 0 <= i && i < len(clone.Ns) ==>
+//@             ref(clone.Ns[i]) != 0 && !pooled[ref(clone.Ns[i])] && (fresh(ref(clone.Ns[i])) || old(pooled)[ref(clone.Ns[i])])
+//@   ensures each-additional-record-is-the-clones-own: msg != nil ==> forall i int :: 0 <= i && i < len(clone.Extra) ==>
+//@             ref(clone.Extra[i]) != 0 && !pooled[ref(clone.Extra[i])] && (fresh(ref(clone.Extra[i])) || old(pooled)[ref(clone.Extra[i])])
+//@   ensures nothing-live-gets-pooled: forall x int :: !old(pooled[x]) ==> !pooled[x]
+//@   ensures no-message-in-use-is-written: forall m *dns.Msg :: !fresh(m) && (!old(pooled[m]) || pooled[m]) ==>
+//@             m.MsgHdr == old(m.MsgHdr) && m.Compress == old(m.Compress) && m.Question == old(m.Question) && m.Answer == old(m.Answer) && m.Ns == old(m.Ns) && m.Extra == old(m.Extra)
+//@   ensures source-records-untouched: msg != nil ==> (forall i int :: 0 <= i && i < len(msg.Answer) ==> msg.Answer[i] == old(msg.Answer[i])) &&
+//@             (forall i int :: 0 <= i && i < len(msg.Ns) ==> msg.Ns[i] == old(msg.Ns[i])) && (forall i int :: 0 <= i && i < len(msg.Extra) ==> msg.Extra[i] == old(msg.Extra[i]))
+//@   ensures PW()
+
+// ---------------------------------------------------------------------------
+// Releasing.  Dispose writes to no object at all - it only moves the released
+// message and its parts into the pools (the frame `modifies pooled` makes any
+// write an obligation) - it never pools an object twice, takes nothing out of
+// a pool, and pools nothing but parts of the message it was given.
+
+// httpsPart[x]: the HTTPS record whose parameter (or address array) x is.
+//@ ghost httpsPart map[int]int
+//@ func (*httpsCloner).put
+//@   modifies pooled
+//@   ensures forall x int :: old(pooled[x]) ==> pooled[x]
+//@   ensures forall x int :: pooled[x] && !old(pooled[x]) ==> rr != nil && (x == rr || httpsPart[x] == rr)
+
+//@ pred treeRRs(s []dns.RR) = liveRRs(s) && inj(s) && noParts(s)
+//@ pred treeOPT(rr *dns.OPT) = rr != nil && !pooled[rr] && injOpts(rr) && (forall j int :: 0 <= j && j < len(rr.Option) ==> !pooled[ref(rr.Option[j])] && ref(rr.Option[j]) != rr)
+//@ pred inRRs(x int, s []dns.RR) = exists i int :: 0 <= i && i < len(s) && ref(s[i]) == x
+//@ pred httpsPartOf(x int, s []dns.RR) = exists i int :: 0 <= i && i < len(s) && isptr(s[i], dns.HTTPS) && httpsPart[x] == ref(s[i]) && ref(s[i]) != 0
+//@ pred inj(s []dns.RR) = forall i int, j int :: 0 <= i && i < j && j < len(s) ==> ref(s[i]) != ref(s[j])
+//@ pred apart(s []dns.RR, t []dns.RR) = forall i int, j int :: 0 <= i && i < len(s) && 0 <= j && j < len(t) ==> ref(s[i]) != ref(t[j])
+//@ pred noParts(s []dns.RR) = forall i int :: 0 <= i && i < len(s) ==> httpsPart[ref(s[i])] == 0
+
+// treeArg: the caller vouches that what it releases is a tree - every part
+// occurs once and none is pooled yet.  Whether callers do is not decided here
+// (Dispose is verified without it), so the never-twice assertions are proved
+// for vouched-for input.
+//@ ghost treeArg bool
+//@ func (*Cloner).putAnswers
+//@   property C07
+//@   requires CL(c) && (treeArg ==> treeRRs(answers))
+//@   modifies pooled
+//@   atcall Put assert never-pools-an-object-twice: treeArg ==> !pooled[arg1]
+//@   ensures pools-only-the-records-it-was-given: forall x int :: pooled[x] && !old(pooled[x]) ==> inRRs(x, answers) || httpsPartOf(x, answers)
+//@   ensures takes-nothing-out: forall x int :: old(pooled[x]) ==> pooled[x]
+//@   loop 1 invariant -1 <= #i && #i < len(answers)
+//@   loop 1 invariant forall x int :: old(pooled[x]) ==> pooled[x]
+//@   loop 1 invariant treeArg ==> forall k int :: #i < k && k < len(answers) ==> !pooled[ref(answers[k])]
+//@   loop 1 invariant forall x int :: pooled[x] && !old(pooled[x]) ==> inRRs(x, answers) || httpsPartOf(x, answers)
+//@   loop 1 staged
+
+//@ pred inOpts(x int, rr *dns.OPT) = exists j int :: 0 <= j && j < len(rr.Option) && ref(rr.Option[j]) == x
+//@ pred injOpts(rr *dns.OPT) = forall i int, j int :: 0 <= i && i < j && j < len(rr.Option) ==> ref(rr.Option[i]) != ref(rr.Option[j])
+//@ func (*optCloner).put
+//@   property C07
+//@   let opts = rr.Option
+//@   requires OC(c) && (treeArg ==> rr != nil && !pooled[rr] && (forall i int, j int :: 0 <= i && i < j && j < len(opts) ==> ref(opts[i]) != ref(opts[j])) &&
+//@              (forall j int :: 0 <= j && j < len(opts) ==> !pooled[ref(opts[j])] && ref(opts[j]) != rr))
+//@   modifies pooled
+//@   atcall Put assert never-pools-an-object-twice: treeArg ==> !pooled[arg1]
+//@   ensures pools-only-the-record-and-its-options: forall x int :: pooled[x] && !old(pooled[x]) ==> rr != nil && (x == rr || inOpts(x, rr))
+//@   ensures takes-nothing-out: forall x int :: old(pooled[x]) ==> pooled[x]
+//@   loop 1 invariant -1 <= #i && #i < len(opts) && (treeArg ==> !pooled[rr])
+//@   loop 1 invariant forall x int :: old(pooled[x]) ==> pooled[x]
+//@   loop 1 invariant treeArg ==> forall k int :: #i < k && k < len(opts) ==> !pooled[ref(opts[k])]
+//@   loop 1 invariant forall x int :: pooled[x] && !old(pooled[x]) ==> (exists j int :: 0 <= j && j < len(opts) && ref(opts[j]) == x)
+//@   loop 1 staged
+
+// The parts of the additional section that Dispose pools: OPT records and
+// their options.
+//@ pred optPartOf(x int, s []dns.RR) = exists i int :: 0 <= i && i < len(s) && isptr(s[i], dns.OPT) && ref(s[i]) != 0 && inOpts(x, asptr(s[i], dns.OPT))
+
+//@ func (*Cloner).Dispose
+//@   property C07
+//@   requires CL(c) && !treeArg
+//@   modifies pooled, resp.MsgHdr, resp.Compress, resp.Question, resp.Answer, resp.Ns, resp.Extra
+//@   ensures pools-only-parts-of-the-released-message: forall x int :: pooled[x] && !old(pooled[x]) ==> resp != nil &&
+//@             (x == resp || inRRs(x, resp.Answer) || inRRs(x, resp.Ns) || inRRs(x, resp.Extra) || httpsPartOf(x, resp.Answer) || optPartOf(x, resp.Extra))
+//@   ensures takes-nothing-out: forall x int :: old(pooled[x]) ==> pooled[x]
+//@   loop 1 invariant -1 <= #i && #i < len(resp.Ns)
+//@   loop 1 invariant forall x int :: old(pooled[x]) ==> pooled[x]
+//@   loop 1 invariant forall x int :: pooled[x] && !old(pooled[x]) ==> inRRs(x, resp.Answer) || inRRs(x, resp.Ns) || httpsPartOf(x, resp.Answer)
+//@   loop 1 staged
+//@   loop 2 staged
+//@   loop 2 invariant -1 <= #i && #i < len(resp.Extra)
+//@   loop 2 invariant forall x int :: old(pooled[x]) ==> pooled[x]
+//@   loop 2 invariant forall x int :: pooled[x] && !old(pooled[x]) ==> inRRs(x, resp.Answer) || inRRs(x, resp.Ns) || inRRs(x, resp.Extra) || httpsPartOf(x, resp.Answer) || optPartOf(x, resp.Extra)
